@@ -101,6 +101,30 @@ fn integers() {
     } } }
 }
 
+
+/// TeX.2021.453-454,458 for the infinite units of a glue stretch: attach_fraction then the |cur_val| >= 2^30 test
+#[test]
+fn glue_fil_units() {
+    std::panic::set_hook(Box::new(|_| {}));
+    let ips: [u64; 8] = [0, 1, 99, 16382, 16383, 16384, 65536, 1073741823];
+    let fracs: Vec<Vec<u8>> = vec![vec![], vec![0], vec![5], vec![9, 9, 9, 9, 8], vec![9, 9, 9, 9, 9], vec![9; 17], vec![0, 0, 0, 0, 1]];
+    for (u, order) in [("fil", common::GlueOrder::Fil), ("fill", common::GlueOrder::Fill), ("filll", common::GlueOrder::Filll), ("fIL", common::GlueOrder::Fil), ("FilL", common::GlueOrder::Fill)] {
+        for ip in ips { for f in &fracs { for sign in ["", "-"] {
+            let frac: String = f.iter().map(|d| (b'0' + d) as char).collect();
+            let src = if f.is_empty() { format!("3pt plus {sign}{ip}{u} ") } else { format!("3pt plus {sign}{ip}.{frac}{u} ") };
+            let v = (ip as i128) * 65536 + rd(&f[..f.len().min(17)]);
+            let (mag, errs) = if ip >= 16384 || v >= (1 << 30) { (MAXD, 1usize) } else { (v, 0usize) };
+            let want = if sign == "-" { -mag } else { mag };
+            let got = scan::<common::Glue>(&src);
+            let ok = matches!(&got, Some((g, e)) if g.width.0 == 3 * 65536 && g.stretch.0 as i128 == want && g.stretch_order == order && *e == errs && g.shrink.0 == 0);
+            if !ok {
+                println!("WITNESS {{\"fn\": \"scan_and_apply_units\", \"unit_fns\": [\"scan_dimen\", \"scan_and_apply_units\", \"handle_overflow\"], \"source\": \"{src}\", \"observed\": \"{}\", \"expected\": \"stretch {want}sp order {order:?} with {errs} error(s) (TeX.2021.453-458)\"}}", format!("{:?}", got).replace('"', "'"));
+                return;
+            }
+        } } }
+    }
+}
+
 /// C09: character codes at and beyond every limit, including the surrogate range, never panic
 #[test]
 fn character_codes() {
